@@ -57,8 +57,13 @@ def engine_check(prop, report, tier, seed, n_quick=160, n_thorough=6000, extra=N
     report.rule = ENGINE_RULE
     gv.theorem_obligations(report, f"GV/Props/{prop}.lean", f"GV.Props.{prop}", audit=True)
     walks = S.run_walks(seed, tier, "engine", n_quick, n_thorough, **kw)
-    S.correspondence(report, walks, prop)
-    S.monitor(report, walks, prop)
+    corr_ok = S.correspondence(report, walks, prop)
+    mon_ok = S.monitor(report, walks, prop)
+    if not corr_ok and mon_ok:
+        # the tie between model and code broke: search harder for a concrete history on which the
+        # property itself fails (more and longer walks, judged by the implementation-level monitor only)
+        more = S.run_walks(seed + 1, tier, "engine-search", n_quick * 12, n_thorough, replay_model=False, **kw)
+        S.monitor(report, more, prop, label="search")
     if extra:
         extra(report, walks, tier, seed)
     return walks
